@@ -13,8 +13,8 @@ Inductive eobs := EObs (who path : bytes) (hdrs : hmap) (gz : bool) (t : tobs).
 
 Inductive case :=
 | CExp (f : family) (pr : proto) (opts : list opt) (e : env) (o : eobs)
-| CBsp (i : bsp_in) (cfg : option (Z * Z * Z * Z)) (n : Z) (beh : option (Z * Z))
-| CBlrp (i : blrp_in) (n maxchunk : Z) (total : Z) (trig : option bool)
+| CBsp (i : bsp_in) (cfg : option (Z * Z * Z * Z)) (n : Z) (beh : option (Z * Z)) (exported : option Z) (dl : option (option Z))
+| CBlrp (i : blrp_in) (n maxchunk : Z) (total : Z) (trig : option bool) (odd : bool) (dl : option (option Z))
 | CLimits (opts : list limits_opt) (e : limits_env) (obs : list Z)
 | CEnvLimits (e : limits_env) (obs : list Z)      (* NewSpanLimits() read directly *)
 | CLogLimits (oc ol : option Z) (ec el : bytes) (obs : list Z)
@@ -104,6 +104,20 @@ Definition check_exp (f : family) (pr : proto) (opts : list opt) (e : env) (o : 
    else []).
 
 (** ** SDK components *)
+(** The deadline the (context-honouring) probe exporter was handed at its first non-empty
+    export, as milliseconds remaining ([None]: no deadline), against a timeout in ns: only order
+    relations with a generous margin (2.5 s early, 0.1 s late). *)
+Definition deadline_ok (expected : option Z) (obs : option (option Z)) : bool :=
+  match obs with
+  | None => true
+  | Some o =>
+      match expected, o with
+      | None, None => true
+      | Some t, Some r => let e := (t / 1000000)%Z in ((e - 2500 <=? r) && (r <=? e + 100))%Z
+      | _, _ => false
+      end
+  end.
+Definition exported_ok (n : Z) (x : option Z) : bool := match x with Some v => (v =? n)%Z | None => true end.
 Definition quad_eqb (a b : Z * Z * Z * Z) : bool :=
   let '(a1, a2, a3, a4) := a in let '(b1, b2, b3, b4) := b in
   ((a1 =? b1) && (a2 =? b2) && (a3 =? b3) && (a4 =? b4))%Z.
@@ -111,8 +125,14 @@ Definition quad_eqb (a b : Z * Z * Z * Z) : bool :=
 Definition bsp_behaviour (b n : Z) : Z * Z := (Z.min (Z.max b 1) n, n).
 Definition pairZ_eqb (a b : Z * Z) : bool := ((fst a =? fst b) && (snd a =? snd b))%Z.
 
-Definition check_bsp (i : bsp_in) (cfg : option (Z * Z * Z * Z)) (n : Z) (beh : option (Z * Z)) : list N :=
+Definition check_bsp (i : bsp_in) (cfg : option (Z * Z * Z * Z)) (n : Z) (beh : option (Z * Z))
+    (exported : option Z) (dl : option (option Z)) : list N :=
   let m := bsp_config i in
+  (* every span is exported (blocking queue), and the exporter's context carries the deadline of
+     the resolved export timeout, or none when that is not positive *)
+  flag (exported_ok n exported && deadline_ok (export_deadline (bo_export m)) dl) V_MISMATCH ++
+  flag (exported_ok n exported &&
+        deadline_ok (deadline_expected (dur_expected (b_opt_export i) (b_env_export i) 30000)) dl) V_SPECFAIL ++
   flag (match cfg with Some c => quad_eqb c (bo_queue m, bo_batch m, bo_delay m, bo_export m) | None => true end &&
         match beh with Some bh => pairZ_eqb bh (bsp_behaviour (bo_batch m) n) | None => true end) V_MISMATCH ++
   flag (match cfg with
@@ -137,15 +157,18 @@ Definition blrp_behaviour (q b n : Z) : Z * option Z :=
   (Z.min (Z.min b q) n, if ((n <=? q) || (q <? b))%Z then Some (Z.min n q) else None).
 (** [trig]: was an export triggered by the queue length alone (before any flush)?  That
     happens iff the queue can reach the batch size. *)
-Definition blrp_obs_ok (q b n maxchunk total : Z) (trig : option bool) : bool :=
+(** [odd]: out-of-range export interval settings were given, so exports may also be cut by the
+    timer: only "nothing is lost while the queue holds everything" is judged then. *)
+Definition blrp_obs_ok (q b n maxchunk total : Z) (trig : option bool) (odd : bool) : bool :=
+  if odd then (if (n <=? q)%Z then (total =? n)%Z else true) else
   let '(mc, tot) := blrp_behaviour q b n in
   ((mc =? maxchunk) && match tot with Some t => t =? total | None => true end)%Z &&
   match trig with Some t => Bool.eqb t (b <=? Z.min n q)%Z | None => true end.
-Definition check_blrp (i : blrp_in) (n maxchunk total : Z) (trig : option bool) : list N :=
+Definition check_blrp (i : blrp_in) (n maxchunk total : Z) (trig : option bool) (odd : bool) (dl : option (option Z)) : list N :=
   let '(q, b) := blrp_config i in
   let '(q', b') := blrp_expected i in
-  flag (blrp_obs_ok q b n maxchunk total trig) V_MISMATCH ++
-  flag (blrp_obs_ok q' b' n maxchunk total trig) V_SPECFAIL.
+  flag (blrp_obs_ok q b n maxchunk total trig odd && deadline_ok (export_deadline (blrp_export_timeout i)) dl) V_MISMATCH ++
+  flag (blrp_obs_ok q' b' n maxchunk total trig odd && deadline_ok (deadline_expected (blrp_export_expected i)) dl) V_SPECFAIL.
 
 Definition lim_n : Z := 140.
 Definition lim_sub : Z := 135.
@@ -191,8 +214,8 @@ Definition check_sampler (o : option sopt) (name arg : option bytes) (dec : list
 Definition check_case (c : case) : list N :=
   match c with
   | CExp f pr opts e o => check_exp f pr opts e o
-  | CBsp i cfg n beh => check_bsp i cfg n beh
-  | CBlrp i n mc tot trig => check_blrp i n mc tot trig
+  | CBsp i cfg n beh ex dl => check_bsp i cfg n beh ex dl
+  | CBlrp i n mc tot trig odd dl => check_blrp i n mc tot trig odd dl
   | CLimits opts e obs => check_limits opts e obs
   | CEnvLimits e obs => check_envlimits e obs
   | CLogLimits oc ol ec el obs => check_loglimits oc ol ec el obs
